@@ -1,6 +1,7 @@
 package main
 
 import (
+	"strconv"
 	"fmt"
 	"go/types"
 	"strings"
@@ -183,6 +184,17 @@ func (ex *Exec) fromJ(v Value) *jval {
 		out.v = get("B")
 	case jNum:
 		out.v = get("N")
+		if lit, ok := get("Lit").(string); ok && lit != "" {
+			f, err := strconv.ParseFloat(lit, 64)
+			if err != nil {
+				panic(pathAbort{"malformed J number literal"})
+			}
+			if f == float64(int64(f)) {
+				out.v = int64(f)
+			} else {
+				out.v = f
+			}
+		}
 	case jStr:
 		out.v = get("S")
 	case jArr, jObj:
